@@ -1469,6 +1469,37 @@ func (h *harness) backChannelCases(g *gen) {
 		}
 		e.bc = bc
 		for _, reqBC := range []bool{false, true} {
+			// correspondence (model case 12): what the server describes = Model.describe of the layout
+			{
+				var cl, ol hx.L
+				cl.N(12).B(reqBC).I(n)
+				isBC := make([]bool, n)
+				for _, k := range bc {
+					isBC[k] = true
+				}
+				for _, b := range isBC {
+					cl.B(b)
+				}
+				u, _ := base.ParseURL("rtsp://" + e.addr + "/s")
+				c := &gortsplib.Client{Scheme: u.Scheme, Host: u.Host, RequestBackChannels: reqBC, ReadTimeout: 2 * time.Second, WriteTimeout: 2 * time.Second}
+				if err := c.Start(); err == nil {
+					d, _, err := c.Describe(u)
+					c.Close()
+					e.hd.take()
+					if err != nil {
+						h.ctx.Failf(-1, "describe-backchannel-failed", fmt.Sprintf("backchannels=%v request=%v", bc, reqBC), "DESCRIBE failed: %v", err)
+					} else {
+						ol.I(len(d.Medias))
+						for _, m := range d.Medias {
+							ol.I(int(m.Formats[0].PayloadType()) - 96)
+							putS(&ol, m.Control)
+						}
+						h.ctx.Corr(cl.String(), ol.String())
+						h.ctx.Eval()
+						h.ctx.Kind("describe-backchannel")
+					}
+				}
+			}
 			for _, tail := range []string{"/cam/main?profile=a/b&x=1", "/s"} {
 				u, err := base.ParseURL("rtsp://" + e.addr + tail)
 				if err != nil {
